@@ -1142,8 +1142,9 @@ def _enumerated_cases():
 def run_shard(ctx):
     ctx.enumerate(_enumerated_cases() + _enumerated_xfer_cases())
     n = 700 if ctx.tier == 'quick' else 20000
-    ctx.explore(case_strategy(), n)
+    # the transfer-manager tier first: it is the cheaper one and must not be starved by the wall-clock budget
     ctx.explore(xfer_strategy(), 150 if ctx.tier == 'quick' else 4000, salt=1)
+    ctx.explore(case_strategy(), n)
 
 
 MANIFEST_ENTRY = {
